@@ -491,6 +491,59 @@ fn eval_inner(p: &CorruptPoint) -> Result<EvalInfo, (String, bool)> {
             }
         }
     }
+    // One iterator re-used for a seek to every key; a seek that fails is retried once on the same
+    // iterator (an iterator that reported an error must not serve anything wrong afterwards).
+    if let Ok(mut it) = db.new_iterator(ReadOptions::default()) {
+        let present: Vec<&Vec<u8>> = allowed.iter().filter(|(_, a)| !a.contains(&None)).map(|(k, _)| k).collect();
+        for target in img.universe.iter().map(|k| &k.0) {
+            let mut ok = it.seek(target).is_ok();
+            if !ok {
+                info.read_errors += 1;
+                ok = it.seek(target).is_ok();
+                if !ok {
+                    info.read_errors += 1;
+                    continue;
+                }
+            }
+            if it.take_error().is_some() {
+                info.read_errors += 1;
+                continue;
+            }
+            let cur = if it.is_valid() { it.current().map(|(k, v)| (k.clone(), v.clone())) } else { None };
+            if let Some(sk) = present.iter().find(|k| **k >= target && cur.as_ref().map_or(true, |(ck, _)| **k < ck)) {
+                return Err((
+                    format!(
+                        "seek({}) on a re-used iterator returned Ok and stands on {} without any error although {} is stored (skipped)",
+                        hex(target),
+                        cur.as_ref().map(|(k, _)| hex(k)).unwrap_or_else(|| "<end>".into()),
+                        hex(sk)
+                    ),
+                    false,
+                ));
+            }
+            if let Some((ck, cv)) = cur {
+                if &ck < target {
+                    return Err((format!("seek({}) on a re-used iterator stands on the smaller key {}", hex(target), hex(&ck)), false));
+                }
+                let a = allowed.get(&ck).cloned().unwrap_or_else(|| vec![None]);
+                if !a.contains(&Some(cv.clone())) {
+                    let never = !ever.get(&ck).map_or(false, |s| s.contains(&cv));
+                    return Err((
+                        format!(
+                            "seek({}) on a re-used iterator returned ({}, {}) which {}",
+                            hex(target),
+                            hex(&ck),
+                            hex(&cv),
+                            if never { "was never written for that key (invented)" } else { "is an older value of that key (resurrected)" }
+                        ),
+                        never,
+                    ));
+                }
+            }
+        }
+    } else {
+        info.read_errors += 1;
+    }
     // A compaction over the damaged table must not turn the damage into silently missing or
     // resurrected data: it either fails (the files stay) or rewrites what it could verify.
     if p.file.ends_with(".rdb") {
